@@ -73,11 +73,18 @@ example : (determineAddr atCid tH s1 "shop" "kv" ["me", "you"]).1 = .ok ⟨"@sho
 
 example : print shopA = "/orbitdb/@shop.kv.me/shop" := by decide
 
+theorem parse_shop : parse atCid "/orbitdb/@shop.kv.me/shop" = some shopA :=
+  parse_of_printed (by decide) (by decide)
+
 /-- same instance, local-only or not, with misleading options: the recorded type and write list -/
 example : openDB atCid tH s1 "/orbitdb/@shop.kv.me/shop" true false "log" false =
-    (.ok (shopA, "kv", ["me"]), s1) := by decide
+    (.ok (shopA, "kv", ["me"]), s1) := by
+  show «open» atCid tH s1 "/orbitdb/@shop.kv.me/shop" _ = _
+  rw [open_valid _ parse_shop]; decide
 example : openDB atCid tH s1 "/orbitdb/@shop.kv.me/shop" false true "" true =
-    (.ok (shopA, "kv", ["me"]), s1) := by decide
+    (.ok (shopA, "kv", ["me"]), s1) := by
+  show «open» atCid tH s1 "/orbitdb/@shop.kv.me/shop" _ = _
+  rw [open_valid _ parse_shop]; decide
 
 /-- `create_then_open_same` applies to the run above -/
 example : ∀ o', «open» atCid tH s1 (print shopA) o' = (.ok (shopA, "kv", ["me"]), s1) :=
@@ -87,37 +94,67 @@ example : ∀ o', «open» atCid tH s1 (print shopA) o' = (.ok (shopA, "kv", ["m
 /-- the other instance: plain `Open` succeeds, local-only `Open` is refused -- even after the
 successful plain one (U1) -/
 example : openDB atCid tH s2 "/orbitdb/@shop.kv.me/shop" false false "" false =
-    (.ok (shopA, "kv", ["me"]), s2) := by decide
+    (.ok (shopA, "kv", ["me"]), s2) := by
+  show «open» atCid tH s2 "/orbitdb/@shop.kv.me/shop" _ = _
+  rw [open_valid _ parse_shop]; decide
 example : openDB atCid tH s2 "/orbitdb/@shop.kv.me/shop" true false "" false =
-    (.error .notLocal, s2) := by decide
+    (.error .notLocal, s2) := by
+  show «open» atCid tH s2 "/orbitdb/@shop.kv.me/shop" _ = _
+  rw [open_valid _ parse_shop]; decide
 example : openDB atCid tH (openDB atCid tH s2 "/orbitdb/@shop.kv.me/shop" false false "" false).2
-    "/orbitdb/@shop.kv.me/shop" true false "" false = (.error .notLocal, s2) := by decide
+    "/orbitdb/@shop.kv.me/shop" true false "" false = (.error .notLocal, s2) := by
+  have h1 : (openDB atCid tH s2 "/orbitdb/@shop.kv.me/shop" false false "" false).2 = s2 :=
+    open_keeps_state s2 _ _ shopA parse_shop
+  rw [h1]
+  show «open» atCid tH s2 "/orbitdb/@shop.kv.me/shop" _ = _
+  rw [open_valid _ parse_shop]; decide
 
 /-- a manifest nobody serves -/
 example : openDB atCid tH s0 "/orbitdb/@shop.kv.me/shop" false false "" false =
-    (.error .noManifest, s0) := by decide
+    (.error .noManifest, s0) := by
+  show «open» atCid tH s0 "/orbitdb/@shop.kv.me/shop" _ = _
+  rw [open_valid _ parse_shop]; decide
 /-- a manifest of a type this instance has not registered (`s2` knows `kv` only) -/
 example : («open» atCid tH { s2 with net := [("@x", ⟨"x", "log", []⟩)] } "/orbitdb/@x/x" {}).1 =
-    .error .unsupported := by decide
+    .error .unsupported := by
+  rw [open_valid (a := ⟨"@x", "x"⟩) _ (parse_of_printed (by decide) (by decide))]; decide
 /-- the path of the address is not compared with the manifest's name (U7) -/
 example : (openDB atCid tH s2 "/orbitdb/@shop.kv.me/anything/else" false false "" false).1 =
-    .ok (⟨"@shop.kv.me", "anything/else"⟩, "kv", ["me"]) := by decide
+    .ok (⟨"@shop.kv.me", "anything/else"⟩, "kv", ["me"]) := by
+  show («open» atCid tH s2 "/orbitdb/@shop.kv.me/anything/else" _).1 = _
+  rw [open_valid (a := ⟨"@shop.kv.me", "anything/else"⟩) _ (parse_of_printed (by decide) (by decide))]; decide
+/-- **an address that climbs out of its root is refused as an address** (finding F28): it prints as
+another database's address -/
+example : parse atCid "/orbitdb/@shop.kv.me/../@other/x" = none := by
+  unfold parse
+  have h0 : parse0 atCid "/orbitdb/@shop.kv.me/../@other/x" = some ⟨"@shop.kv.me", "../@other/x"⟩ := by decide
+  rw [h0]
+  have hg : staysBelowRoot atCid ⟨"@shop.kv.me", "../@other/x"⟩ = false := by
+    unfold staysBelowRoot
+    have hp : print ⟨"@shop.kv.me", "../@other/x"⟩ = "/orbitdb/@other/x" := by decide
+    rw [hp]
+    have h1 : parse0 atCid "/orbitdb/@other/x" = some ⟨"@other", "x"⟩ := by decide
+    rw [h1]; decide
+  simp [hg]
 
 /-! ### `Open` of something that is not an address -/
 
-example : openDB atCid tH s1 "shop" false false "kv" false = (.error .createFalse, s1) := by decide
-example : openDB atCid tH s1 "shop" false true "" false = (.error .noType, s1) := by decide
+theorem parse_shop_name : parse atCid "shop" = none := parse_none_of_parse0 (by decide)
+example : openDB atCid tH s1 "shop" false false "kv" false = (.error .createFalse, s1) :=
+  open_invalid_no_create s1 "shop" _ parse_shop_name rfl
+example : openDB atCid tH s1 "shop" false true "" false = (.error .noType, s1) :=
+  open_invalid_no_type s1 "shop" _ parse_shop_name rfl rfl
 
 /-- with `Create` and a type it creates, overwrite forced: the existing `shop` is NOT refused -/
 example : («open» atCid tH s1 "shop" { create := true, storeType := "kv" }).1 =
     .ok (shopA, "kv", ["me"]) :=
   open_create_over_existing s1 "shop" { create := true, storeType := "kv" } shopA
-    (by decide) rfl (by decide) (by decide) (by decide) (by decide)
+    parse_shop_name rfl (by decide) (by decide) (by decide) (by decide)
 
 /-- ... and on a fresh instance it creates the database (local-only included: `Create` wrote the key) -/
 example : «open» atCid tH s0 "shop" { create := true, storeType := "kv", localOnly := true } =
     (.ok (shopA, "kv", ["me"]), s1) := by
-  rw [open_invalid_creates _ _ _ (by decide) rfl (by decide),
+  rw [open_invalid_creates _ _ _ parse_shop_name rfl (by decide),
     create_of (a := shopA) (by decide) (by decide) (by decide) (by decide) (by decide)]
   decide
 
